@@ -82,6 +82,10 @@ CHECKS = {
    "implementation-shaped TLA+ model of the coalescing limiter (RWMutex, WaitGroup, token and signal sender goroutines, Run's program counter, fake timer) whose observable steps feed the CoalContract monitor (a nondeterministic machine tracked as the set of compatible states), checked exhaustively by TLC incl. liveness; the real limiter (fake ticker) driven by the gated scheduler over Add bursts, clock steps, prompt/slow consumers, Close and cancel; every trace judged by TLC",
    "329k (quick) to ~21M (thorough) model states; 325 (quick) to ~5k (thorough) schedules incl. sequential timelines whose signal timeline is unique and compared exactly: first Add signalled at once, windows double up to MaxDelay, cap forces a signal, one signal per burst, signals <= Adds, no Add lost, Close returns only after all helpers finished and never deadlocks",
    "trusted: TLC, k8s FakeClock, quiescence by goroutine wait states; exhaustive monitored configurations are bounded to <=3 Adds / time <=3 (the monitor's uncertainty set multiplies states), larger constants in simulation only", "DESIGN.md#c09"),
+ "C13": ("model_checking",
+   "one implementation-shaped TLA+ model per primitive (FifoMutex, FifoMap, CmapMutex with mutex objects that can go stale, CtxLock, OuterCancel) feeding the shared LockContract monitor, checked exhaustively by TLC; the real primitives driven by the gated scheduler (fifo map / cmap look-up windows, FIFO arrival order from goroutine wait states, context cancellation at hand-over) and inside testing/synctest (OuterCancel grace period in exact virtual time), an occupancy monitor around every critical section; traces judged by TLC",
+   "283k (quick) to 14.2M (thorough) model states over 10-16 passing configs (+7-8 defect configs that must be caught); 1.5k (quick) to 26k (thorough) scenarios in re-exec'ed child processes: never two exclusive holders, never a writer with an un-stopped reader, FIFO grant order, no leaked per-key entry, failed acquisition holds nothing, cancelled waiter stops waiting, outer-cancel writer only after grace since ITS request, reader cancelled only for the four allowed reasons",
+   "trusted: TLC, FIFO-ness of Go's channel send queue (axiom of FifoMutex.tla), testing/synctest virtual time; a rejected run is reported only if it is rejected again in a fresh process; plain Delete by a bystander is outside the property's 'correctly paired' quantifier", "DESIGN.md#c13"),
 }
 
 def hook_commits():
